@@ -97,6 +97,13 @@ func compRun(args []string) error {
 			fmt.Fprintf(os.Stderr, "FAIL %s: %s\n", v.Name, v.Msg)
 		}
 	}
-	fmt.Printf("{\"walks\":%d,\"pass\":%d,\"fail\":%d,\"skip\":%d,\"events\":%d}\n", len(vs), pass, fail, skip, sink.N)
+	probe := false
+	if *fault == "rejectForwardRefs" {
+		var err error
+		if probe, err = compdrv.ProbeRejectsForwardRefs(*fault); err != nil {
+			return err
+		}
+	}
+	fmt.Printf("{\"walks\":%d,\"pass\":%d,\"fail\":%d,\"skip\":%d,\"events\":%d,\"probe_faulty\":%v}\n", len(vs), pass, fail, skip, sink.N, probe)
 	return nil
 }
